@@ -30,6 +30,7 @@ type Obligation struct {
 	Model      string
 	Output     string
 	ModelOf    map[string]string // name -> term for replay
+	Decided    bool              // decided by gocv itself, not by a solver
 	File       string
 	Tried      []string
 	AllResults []string
@@ -79,6 +80,10 @@ type State struct {
 	loopIn    map[string]Term
 	loopSnap  map[int]*State
 	tableKeys map[string][]Term
+	epochID   int // identifies the last whole-heap havoc on this path
+	declared  map[string]bool
+	keepPkgs  []string // packages whose untouched components still have their entry value after whole-heap havocs
+	keepNone  bool
 }
 
 func (s *State) clone() *State {
@@ -121,6 +126,15 @@ func (s *State) clone() *State {
 		n.entered[k] = v
 	}
 	n.tableKeys = s.tableKeys
+	n.epochID = s.epochID
+	if s.declared != nil {
+		n.declared = make(map[string]bool, len(s.declared))
+		for k := range s.declared {
+			n.declared[k] = true
+		}
+	}
+	n.keepPkgs = s.keepPkgs
+	n.keepNone = s.keepNone
 	if s.loopSnap != nil {
 		n.loopSnap = make(map[int]*State, len(s.loopSnap))
 		for k, v := range s.loopSnap {
@@ -137,6 +151,37 @@ func (s *State) clone() *State {
 	n.defers = append([]*ssa.Defer(nil), s.defers...)
 	n.pathID = append([]string(nil), s.pathID...)
 	return n
+}
+
+// declare adds a path-local constant once.
+func (s *State) declare(name, sort string) {
+	if s.declared == nil {
+		s.declared = map[string]bool{}
+	}
+	if s.declared[name] {
+		return
+	}
+	s.declared[name] = true
+	s.lines = append(s.lines, fmt.Sprintf("(declare-const %s %s)", name, sort))
+}
+
+// mergeLines appends lines produced in a snapshot state, skipping constants already declared here.
+func (s *State) mergeLines(lines []string) {
+	for _, l := range lines {
+		if strings.HasPrefix(l, "(declare-const ") {
+			f := strings.Fields(l)
+			if len(f) >= 2 && strings.Contains(f[1], "!e") {
+				if s.declared == nil {
+					s.declared = map[string]bool{}
+				}
+				if s.declared[f[1]] {
+					continue
+				}
+				s.declared[f[1]] = true
+			}
+		}
+		s.lines = append(s.lines, l)
+	}
 }
 
 func (s *State) assume(t Term) {
@@ -277,10 +322,10 @@ func (u *Unit) heapGet(st *State, comp, sort string) Term {
 		u.entryHeap = map[string]Term{}
 	}
 	u.entryHeap[comp] = mk(n, sort)
-	if st.epoch > 0 {
-		// untouched since a havoc of the whole heap: unknown content
-		fn := u.freshName(comp)
-		st.lines = append(st.lines, fmt.Sprintf("(declare-const %s %s)", fn, sort))
+	if st.epoch > 0 && !pkgMatches(u.eng.compPkg[comp], st.keepPkgs) {
+		// untouched since a havoc of the whole heap: unknown content, one constant per havoc event
+		fn := fmt.Sprintf("%s!e%d", comp, st.epochID)
+		st.declare(fn, sort)
 		t := mk(fn, sort)
 		st.heap[comp] = t
 		return t
@@ -319,15 +364,20 @@ func (u *Unit) fieldComp(structT types.Type, i int) (string, string, types.Type)
 	st := structT.Underlying().(*types.Struct)
 	f := st.Field(i)
 	comp := "F_" + u.eng.tn.mangle(structT) + "_" + sanitize(f.Name())
+	u.eng.notePkg(comp, structT)
 	return comp, arraySort(SInt, u.sortOf(f.Type())), f.Type()
 }
 
 func (u *Unit) cellComp(t types.Type) (string, string) {
-	return "C_" + u.eng.tn.mangle(t), arraySort(SInt, u.sortOf(t))
+	comp := "C_" + u.eng.tn.mangle(t)
+	u.eng.notePkg(comp, t)
+	return comp, arraySort(SInt, u.sortOf(t))
 }
 
 func (u *Unit) elemComp(t types.Type) (string, string) {
-	return "E_" + u.eng.tn.mangle(t), arraySort(SInt, arraySort(SInt, u.sortOf(t)))
+	comp := "E_" + u.eng.tn.mangle(t)
+	u.eng.notePkg(comp, t)
+	return comp, arraySort(SInt, arraySort(SInt, u.sortOf(t)))
 }
 
 // subRef is the reference of a struct embedded by value as field i of the struct at r.
